@@ -98,10 +98,13 @@ def run(A, rep, tier):
     forms = {}
     for n in rets:
         parts = strparts(A.expand(n.ast.value, tod))
+        if parts is not None:
+            # format()/f-strings apply str() to every field: `x` and `str(x)` are the same part
+            parts = [p_[4:-1] if p_.startswith("str(") and p_.endswith(")") else p_ for p_ in parts]
         gs = A.path_guards(g, g.entry, n, tod)
         forms[tuple(parts) if parts is not None else ("?",)] = sorted(sorted(c) for c in gs)
     want = {("%s.name" % p0, "TASK_OUTPUT_DIR_SUFFIX"): [[("none(%s)" % p1, True)]],
-            ("%s.name" % p0, "TASK_OUTPUT_DIR_SUFFIX", "'.'", "str(%s)" % p1): [[("none(%s)" % p1, False)]]}
+            ("%s.name" % p0, "TASK_OUTPUT_DIR_SUFFIX", "'.'", p1): [[("none(%s)" % p1, False)]]}
     rep.check(forms == want, "RX2", "directory name = name + suffix [+ '.' + version]", tod.node, "the version suffix is '.' + str(version), added iff a version is given",
               "task_output_dir builds %s" % forms)
     vs = A.fn("execution.version_index.Version.__str__")
